@@ -35,9 +35,9 @@ var c17Refused = []string{"!", " 1", "-1", "\n", "*", "\xff", "1\n1", strings.Re
 type c17Witness struct {
 	App     string   `json:"app"`
 	Opts    lsOpts   `json:"opts"`
-	Inputs  []string `json:"valid_history"`
+	Inputs  qstrs    `json:"valid_history"`
 	Pos     int      `json:"insert_before_request"`
-	Refused string   `json:"refused_input"`
+	Refused qstr     `json:"refused_input"`
 	Style   int      `json:"client_style"`
 }
 
@@ -194,7 +194,7 @@ func c17Replay(w json.RawMessage) (string, string) {
 	if !ok {
 		return "bad-witness", "app"
 	}
-	s, m, _ := c17Exec(d, wit.Opts, wit.Inputs, wit.Pos, wit.Refused, wit.Style, nil)
+	s, m, _ := c17Exec(d, wit.Opts, wit.Inputs, wit.Pos, string(wit.Refused), wit.Style, nil)
 	return s, m
 }
 
@@ -255,7 +255,7 @@ func c17Run(c *mc.Ctx) {
 								c.Distinct("nontrivial", d.name, o.Mode, o.Backend, fmt.Sprint(h), fmt.Sprint(pos))
 							}
 							if sig != "" {
-								c.Fail(sig, msg, c17Witness{App: d.name, Opts: o, Inputs: h, Pos: pos, Refused: rf, Style: style})
+								c.Fail(sig, msg, c17Witness{App: d.name, Opts: o, Inputs: h, Pos: pos, Refused: qstr(rf), Style: style})
 							}
 						}
 					}
